@@ -67,22 +67,22 @@ type inMsg struct {
 }
 
 type wrec struct {
-	T      time.Duration
-	Conn   int
-	Dst    netip.Addr
-	RA     *ndp.RouterAdvertisement
-	Err    error
+	T          time.Duration
+	Conn       int
+	Dst        netip.Addr
+	RA         *ndp.RouterAdvertisement
+	Err        error
 	AfterClose bool
 }
 
 type fconn struct {
-	w      *world
-	id     int
-	in     chan inMsg
-	mu     sync.Mutex
-	dl     chan struct{}
-	dlShut bool
-	closed bool
+	w              *world
+	id             int
+	in             chan inMsg
+	mu             sync.Mutex
+	dl             chan struct{}
+	dlShut         bool
+	closed         bool
 	nclose, nleave int
 }
 
@@ -263,8 +263,8 @@ type world struct {
 	// hooks called (in the calling goroutine) when the n-th (1-based) WriteTo
 	// begins / forwarding read happens: used to arm harness threads at
 	// constructed instants.
-	hookWrite func(n int, dst netip.Addr)
-	hookFwd   func(n int)
+	hookWrite    func(n int, dst netip.Addr)
+	hookFwd      func(n int)
 	nWrite, nFwd int
 
 	ndial int
